@@ -238,6 +238,61 @@ def crash_linop(cx, method="custom_exactsolve"):
     return "crash@%d/%d" % (k, total)
 
 
+def unique_params(cx, n=4):
+    """EditableModule.getuniqueparams / setuniqueparams (the machinery behind uselinopparams) on an object with n tensor
+    attributes whose IDENTITIES are symbolic: for every aliasing pattern, substituting new tensors keeps exactly the aliasing
+    of the original, and putting the unique originals back restores at every position an object identical to the original."""
+    from xitorch._core import editable_module as em
+    from harness.symid import symbolic_ids, rebound_id
+    from symtorch.core import band
+
+    class Holder(xitorch.EditableModule):
+        def __init__(self, ts):
+            for i, t in enumerate(ts):
+                setattr(self, "p%d" % i, t)
+
+        def forward(self):
+            return sum(getattr(self, "p%d" % i) for i in range(n))
+
+        def getparamnames(self, methodname, prefix=""):
+            return [prefix + "p%d" % i for i in range(n)]
+    tensors = [torch.full((1,), float(i + 1), dtype=torch.float64) for i in range(n)]
+    vals = symbolic_ids(cx, n)
+    m = Holder(tensors)
+    index_of = {id(t): i for i, t in enumerate(tensors)}
+    with rebound_id(em, tensors, vals):
+        uniq = m.getuniqueparams("forward")
+        k = len(uniq)
+        new = [torch.full((1,), 100.0 + j, dtype=torch.float64) for j in range(k)]
+        m.setuniqueparams("forward", *new)
+        held = [getattr(m, "p%d" % i) for i in range(n)]
+        m.setuniqueparams("forward", *uniq)
+        back = [getattr(m, "p%d" % i) for i in range(n)]
+    cx.claim_true("every position received one of the new tensors", all(any(h is v for v in new) for h in held))
+
+    def conj(terms):
+        r = None
+        for t in terms:
+            r = t if r is None else band(r, t)
+        return r
+    pairs = [(i, j) for i in range(n) for j in range(i + 1, n)]
+    same = [vals[i] == vals[j] for i, j in pairs if held[i] is held[j]]
+    diff = [vals[i] != vals[j] for i, j in pairs if held[i] is not held[j]]
+    if same:
+        cx.claim("positions that received the same new tensor were aliases of each other", conj(same))
+    if diff:
+        cx.claim("positions that received different new tensors were not aliases", conj(diff))
+    ok = all(id(b) in index_of for b in back)
+    cx.claim_true("after putting the originals back every position holds an original tensor", ok)
+    if ok:
+        cx.claim("... namely one identical to its own original", conj([vals[index_of[id(b)]] == vals[i] for i, b in enumerate(back)]))
+    uidx = [index_of[id(u)] for u in uniq]
+    d2 = [vals[a] != vals[b] for ia, a in enumerate(uidx) for b in uidx[ia + 1:]]
+    if d2:
+        cx.claim("the unique parameters are pairwise distinct objects", conj(d2))
+    return "%d unique of %d" % (k, n)
+
+
 def configs(tier):
     cfgs = []
 
@@ -250,6 +305,8 @@ def configs(tier):
     # debug mode runs randomised self-checks: exercised on the real code only (seeded crash points)
     add("aux_real_only/crash/rootfinder/nn/debug_on", crash, functional="rootfinder", kind="nn", debug=True,
         opts={"real_only": True, "validate": 6})
+    for n in ((3, 4, 5) if tier == "quick" else (3, 4, 5, 6)):
+        add("unique_params/n%d" % n, unique_params, n=n, opts={"max_paths": 1000, "max_decisions": 400, "budget_s": 900})
     add("crash_linop/custom_exactsolve", crash_linop, method="custom_exactsolve")
     add("crash_linop/cg", crash_linop, method="cg")
     return cfgs
